@@ -296,7 +296,7 @@ def h_array(dtype, mname, k, t):
         import bitstring
         a = bitstring.Array(dtype)
         w = a.itemsize
-        arith_m = mname.startswith('__') and mname not in ('__getitem__', '__setitem__', '__delitem__', '__len__', '__iter__', '__repr__', '__copy__')
+        arith_m = (mname.startswith('__') and mname not in ('__getitem__', '__setitem__', '__delitem__', '__len__', '__iter__', '__repr__', '__copy__')) or mname in ('astype', 'pp')
         if arith_m:
             # element-wise operators are audited on concrete data patterns with catalogue operands: arithmetic on symbolic items with symbolic or huge
             # operands is beyond the solver (non-linear) and CrossHair's symbolic int model (true division by 10**400), and ended inconclusive
@@ -310,7 +310,7 @@ def h_array(dtype, mname, k, t):
         args = []
         for i, c in enumerate(ARRAY_METHODS[mname].split()):
             if c == 'V2':
-                arith = mname.startswith('__') and mname not in ('__getitem__', '__setitem__', '__delitem__')
+                arith = mname.startswith('__') and mname not in ('__getitem__', '__setitem__', '__delitem__')     # (same set as arith_m minus astype/pp)
                 # element-wise operators: the scalar comes from a catalogue (symbolic x symbolic arithmetic is beyond the solver and ends inconclusive)
                 args.append((K.choice(f'a{i}i', [-3, 0, 1, 2, 40]) if (LIGHT[0] or arith) else K.int(f'a{i}', -40, 40)) if K.bool(f'a{i}?int') else
                             K.choice(f'a{i}', [1.5, 'ff', None, b'\x01', [1, 2], True, 0, float('nan'), float('inf'), -float('inf'), -0.0, 1e308] + ([10 ** 400] if mname in ('__add__', '__sub__', '__mul__', '__setitem__', 'append', 'insert') else [])))
@@ -326,7 +326,7 @@ def h_array(dtype, mname, k, t):
                 args.append(_arg(K, c, a.data, i))
         if mname == 'pp':
             args = [args[0], args[1], True, io.StringIO()]
-        if arith_m and ARRAY_METHODS[mname] == 'V2' and K.bool('array_operand'):
+        if arith_m and mname.startswith('__') and ARRAY_METHODS[mname] == 'V2' and K.bool('array_operand'):
             # Array (op) Array: equal and unequal lengths, zeros (division), another dtype
             kind = K.choice('operand', ['zeros', 'ones', 'short', 'other-dtype', 'float-zeros'])
             args = [{'zeros': lambda: bitstring.Array(dtype, [0] * k), 'ones': lambda: bitstring.Array(dtype, [1] * k), 'short': lambda: bitstring.Array(dtype, [1] * (k + 1)),
